@@ -375,6 +375,10 @@ class CoLock(object):
       s.yield_point(('release', self.role))
 
   def locked(self):
+    s = _managed()
+    if s is not None:
+      s.yield_point(('locked', self.role))
+      s.log('locked', self, self.owner is not None)
     return self.owner is not None
 
   def _at_fork_reinit(self):
